@@ -344,3 +344,13 @@ theorem picksOf_replicate (t : String) (m : PMap) (st : RR) (hg : m.get t = some
         rw [ih (m.set t st1) st1 (PMap.get_set_same _ _ _) zs hz]
 
 end Afkak.Partitioner
+
+namespace Afkak.Partitioner
+
+theorem rrAfterError_wf (st : RR) (ps : List Int) (hw : WF st) : WF (rrAfterError st ps) := by
+  unfold rrAfterError
+  split
+  · exact (sortInts_perm ps).symm
+  · exact hw
+
+end Afkak.Partitioner
